@@ -69,6 +69,15 @@ def run_jobs(ctx, jobs, part, heavy=False, ignore=(), nontrivial=None, min_chunk
         if r is None or "crash" in r or "exc" in r:
             ctx.violation(dict(ident, kind="crash-or-exception", exc=(r or {}).get("exc")), {"job": j, "result": r})
             continue
+        if "skip" in r:          # the estimator does not support the sklearn parameter protocol this history needs
+            ctx.parts[part + "_not_applicable"] = ctx.parts.get(part + "_not_applicable", 0) + 1
+            continue
+        if j.get("cfg_in_ids"):  # the configuration in force is part of the memo key: item id + 100 * configuration
+            cur = (j["cfg"] if isinstance(j["cfg"], int) else 0) + 1
+            for st in r["steps"]:
+                if st["c"]["op"] == "reconf":
+                    cur = st["c"]["knob"]
+                st["c"] = dict(st["c"], b=[x + 100 * cur for x in st["c"]["b"]])
         if j.get("idmap"):       # items that are encodings of the same abstract object share a memo key
             mp = {int(k): v for k, v in j["idmap"].items()}
             for st in r["steps"]:
